@@ -33,6 +33,8 @@ type histCfg struct {
 	autoLogin   bool
 	tokenDur    time.Duration
 	noRT        bool // the provider issues no refresh token
+	lowFirst    bool     // the first login asks for the provider's lower level
+	acrSup      []string // what the provider advertises as acr_values_supported (nil = the ID-porten values)
 }
 
 func (h histCfg) modeNum() int {
@@ -64,6 +66,12 @@ func histConfigs(c *ctx) []histCfg {
 	for _, m := range modes {
 		for _, inact := range []time.Duration{0, 4 * time.Minute} {
 			out = append(out, histCfg{mode: m.m, forwardAuth: m.fwd, inactivity: inact, maxLifetime: time.Hour, tokenDur: 10 * time.Minute, noRT: true})
+		}
+	}
+	// authentication levels OUTSIDE the ID-porten hierarchy (a provider with levels of its own): the configured level is then required literally
+	for _, m := range modes {
+		for _, low := range []bool{true, false} {
+			out = append(out, histCfg{mode: m.m, forwardAuth: m.fwd, inactivity: 0, maxLifetime: time.Hour, acr: "gold", tokenDur: 10 * time.Minute, acrSup: []string{"silver", "gold"}, lowFirst: low})
 		}
 	}
 	// flags that do not interact with the time logic are spread pseudo-randomly
@@ -111,7 +119,7 @@ func runHist(c *ctx) {
 
 func runOneHistory(c *ctx, hc histCfg, hid, nSteps int) {
 	o := sutOpts{mode: hc.mode, maxLifetime: hc.maxLifetime, inactivity: hc.inactivity, tokenDuration: hc.tokenDur, acr: hc.acr, autoLogin: hc.autoLogin,
-		ignorePaths: []string{"/open/**"}, includeIDToken: hc.idTok, forwardAuth: hc.forwardAuth, sidRequired: true}
+		ignorePaths: []string{"/open/**"}, includeIDToken: hc.idTok, forwardAuth: hc.forwardAuth, sidRequired: true, acrSupported: hc.acrSup}
 	h := &histRun{c: c, hc: hc, hid: hid}
 	switch hc.mode {
 	case "standalone":
@@ -155,7 +163,11 @@ func runOneHistory(c *ctx, hc histCfg, hid, nSteps int) {
 	h.b = newBrowser()
 	c.emit("hstart", "hid", hid, "mode", hc.modeNum(), "fwd", hc.forwardAuth, "inact", hc.inactivity, "maxlife", hc.maxLifetime, "acr", hx(hc.acr),
 		"idtok", hc.idTok, "autologin", hc.autoLogin, "tokdur", hc.tokenDur)
-	h.login("")
+	if hc.lowFirst && hc.acrSup != nil {
+		h.login("?level=" + hc.acrSup[0]) // the history starts with a session BELOW the configured level
+	} else {
+		h.login("")
+	}
 	for i := 0; i < nSteps; i++ {
 		h.step = i
 		h.randomStep()
@@ -329,6 +341,9 @@ func (h *histRun) randomStep() {
 		q := ""
 		if h.hc.acr != "" && r.chance(1, 3) {
 			q = "?level=idporten-loa-substantial"
+			if h.hc.acrSup != nil {
+				q = "?level=" + h.hc.acrSup[0] // a lower level of the provider's own scale
+			}
 		}
 		if h.hc.mode == "sso-proxy" || h.hc.mode == "sso-server" {
 			// (SSO server validates the redirect; default is fine)
